@@ -536,6 +536,10 @@ def readTxt {V T : Type} (dec : T → Option V) (f : TxtFile T) : Except Err (Li
     if !(sameLen rows) then .error .value
     else .ok ((readNames f.header).zip (columnsOf (readNames f.header).length rows))
 
+/-- `dict(zip(names, values))[k]`: the value of the LAST pair with key `k` -/
+def dictGet {V : Type} (l : List (Name × List V)) (k : Name) : Option (List V) :=
+  l.foldl (fun acc p => if p.1 = k then some p.2 else acc) none
+
 /-! ### specification-level definitions used in the statements of the theorems -/
 
 /-- specification of the written rows: fracture k contributes `[k, a.x, a.y, b.x, b.y]` -/
@@ -550,6 +554,37 @@ def strip {V : Type} (f : Frac2 V) : Frac2 V := ⟨f.a, f.b, []⟩
 inductive Pointwise {α β : Type} (R : α → β → Prop) : List α → List β → Prop
   | nil : Pointwise R [] []
   | cons {a b l m} : R a b → Pointwise R l m → Pointwise R (a :: l) (b :: m)
+
+/-! ### the tolerance predicates of the real code over exact rationals (every binary64 is one) -/
+
+def absQ (x : Rat) : Rat := if x < 0 then -x else x
+
+/-- `np.allclose(point, x, rtol=0, atol=tol)`: the documented absolute tolerance -/
+def closeQ (tol : Rat) (x p : Pt2 Rat) : Bool :=
+  decide (absQ (p.1 - x.1) ≤ tol) && decide (absQ (p.2 - x.2) ≤ tol)
+
+/-- `uniquify_point_set`: squared distance below tol² -/
+def nearQ (tol : Rat) (x p : Pt2 Rat) : Bool :=
+  decide ((p.1 - x.1) * (p.1 - x.1) + (p.2 - x.2) * (p.2 - x.2) < tol * tol)
+
+/-- LineFracture._check_pts: `np.all(np.isclose(pts[:, 0], pts[:, 1]))` with numpy's defaults -/
+def degenQ (p q : Pt2 Rat) : Bool :=
+  decide (absQ (p.1 - q.1) ≤ (1 : Rat) / 100000000 + (1 : Rat) / 100000 * absQ q.1) &&
+  decide (absQ (p.2 - q.2) ≤ (1 : Rat) / 100000000 + (1 : Rat) / 100000 * absQ q.2)
+
+/-- decidable input condition "end points pairwise farther apart than tol": two different end points
+    differ by more than tol in at least one coordinate -/
+def Separated (tol : Rat) (fs : List (Frac2 Rat)) : Prop :=
+  ∀ p ∈ endpoints fs, ∀ q ∈ endpoints fs, p ≠ q → tol < absQ (p.1 - q.1) ∨ tol < absQ (p.2 - q.2)
+
+/-- decidable input condition "every fracture can be constructed": LineFracture accepts its end points -/
+def Constructible (fs : List (Frac2 Rat)) : Prop := ∀ f ∈ fs, f.a ≠ f.b ∧ degenQ f.a f.b = false
+
+instance (tol : Rat) (fs : List (Frac2 Rat)) : Decidable (Separated tol fs) := by
+  unfold Separated; exact inferInstance
+
+instance (fs : List (Frac2 Rat)) : Decidable (Constructible fs) := by
+  unfold Constructible; exact inferInstance
 
 /-! ### polyline files (format 2 of `network_2d_from_csv`): specification -/
 
